@@ -284,6 +284,9 @@ def _type_test(test, guard_name, rel):
     """`[not <guard_name> and] stream_type == '<type>'` -> (guarded?, type)"""
     guarded = False
     if isinstance(test, ast.BoolOp) and isinstance(test.op, ast.And) and len(test.values) == 2:
+        # both conjuncts are free of effects: `<type test> and not <guard>` is put into the template's order
+        if isinstance(test.values[0], ast.Compare) and isinstance(test.values[1], ast.UnaryOp):
+            test.values.reverse()
         g, test = test.values
         if not (isinstance(g, ast.UnaryOp) and isinstance(g.op, ast.Not) and isinstance(g.operand, ast.Name)
                 and g.operand.id == guard_name):
